@@ -12,7 +12,7 @@ test accepts, and `normal(points, params)` of the implementation.
   `p + εn ∉ D` and `p − εn ∈ D`, membership decided in exact rational arithmetic by the Lean membership algorithm
   that `contains_iff_mem` proves equal to the denoted set.  ε is 4e-3 of the size of the primitive the point lies
   on, reduced so that no other boundary piece is within 2.5ε (then the segment p ± εn meets the boundary only at
-  p); points at junctions of two primitives' boundaries, near (not at) a corner, or at corners too sharp for
+  p); perpendicular to the edge / radial at points clearly on one smooth piece (5e-4); points at junctions of two primitives' boundaries, near (not at) a corner, or at corners too sharp for
   float32 are counted as skipped, never reported."""
 import math
 from fractions import Fraction as Fr
@@ -338,6 +338,35 @@ def step_plan(solid, env, p):
     return "ok", eps, dict(leaf=lvs[gi].kind, corner=len(on) == 2)
 
 
+def perp_plan(solid, env, p):
+    """direction the normal must be perpendicular (segment) / parallel (radial) to, or None when the point is not
+    clearly on exactly one smooth boundary piece (corner, junction, near-corner)"""
+    lvs = leaves(solid)
+    geoms = [leaf_geom(lf, env) for lf in lvs]
+    eta = 1e-6 * max([1.0] + [abs(a) for a in p])
+    on, other = [], []
+    for gi, g in enumerate(geoms):
+        for pi, d in enumerate(pieces_dist(g, p)):
+            (on if d <= 1e-4 * g[2] + eta else other).append((gi, pi, d))
+    if len(on) != 1:
+        return None
+    gi, pi, _ = on[0]
+    kind, data, scale = geoms[gi]
+    if kind == "interval":
+        return None
+    big = scale if kind in ("circle", "sphere") else max(math.dist(a, b) for a, b in data)
+    if other and min(d for _, _, d in other) < 2e-3 * big:
+        return None
+    if kind in ("circle", "sphere"):
+        c, r = data
+        if r <= 0:
+            return None
+        return dict(kind="radial", dir=[(a - b) / r for a, b in zip(p, c)])
+    a, b = data[pi]
+    L = math.dist(a, b)
+    return dict(kind="segment", dir=[(b[0] - a[0]) / L, (b[1] - a[1]) / L])
+
+
 def to_fr(x):
     return Fr(float(x))
 
@@ -386,6 +415,7 @@ def evaluate(ctx, rep, cases, fixed=None):
                     lines.append(f"contains {ATOL} {RTOL} {BATOL} {st} {env_tokens({var: inn})} {env_tokens(env)}")
                 else:
                     ent["skip"] = pl[1]
+                ent["perp"] = perp_plan(solid, env, r["p"])
             plan.append(ent)
         if not rows:
             rep.count("case-without-points")
@@ -437,6 +467,18 @@ def judge(rep, cs, solid, ent, replies):
         ln = math.sqrt(sum(a * a for a in nv))
         if abs(ln - 1) > UNIT_TOL:
             rep.fail(f"normal() returned {nv} of length {ln:.6g}, not a unit vector ({r['src']})", inp, detail=dict(normal=nv))
+        pp = ent.get("perp")
+        if pp is not None:
+            rep.count("perpendicularity-tested")
+            along = sum(a * b for a, b in zip(nv, pp["dir"]))
+            if pp["kind"] == "segment" and abs(along) > 5e-4:
+                rep.fail(f"normal {nv} at the interior point {r['p']} of a straight edge is not perpendicular to the edge "
+                         f"(component {along:.4g} along the edge direction {pp['dir']}; {r['src']})", inp, detail=dict(normal=nv, edge=pp["dir"]))
+            if pp["kind"] == "radial":
+                off = math.sqrt(sum((a - along * b) ** 2 for a, b in zip(nv, pp["dir"])))
+                if off > 2e-3:
+                    rep.fail(f"normal {nv} at the point {r['p']} of a circle line / sphere is not radial "
+                             f"(tangential component {off:.4g}; {r['src']})", inp, detail=dict(normal=nv, radial=pp["dir"]))
         st = ent["step"]
         if st is None:
             rep.count("step-skipped:" + ent.get("skip", "?"))
